@@ -123,6 +123,18 @@ def step (s : St) (line : String) : St × String :=
   | ["match", r, a] => pair s r a fun s p => { s with matchT := p :: s.matchT }
   | ["custom", n, a] => pair s n a fun s p => { s with customT := p :: s.customT }
   | ["sim", q, c] => pair s q c fun s p => { s with sims := p :: s.sims }
+  | ["argprobe", n, a] =>
+    -- a uod command's argument at both sites: the validator the editor builds from the published definition
+    -- (`pubValid`) and the engine's `parse_args` (`uodArgOk`)
+    match decodeStr n, decodeStr a with
+    | some n, some a =>
+      let G := s.engine
+      let v := pubValid G (publish G true) n a
+      let p := match uodCmd G n with
+        | some c => uodArgOk G c a
+        | none => false
+      (s, (if v then "T" else "F") ++ " " ++ (if p then "T" else "F"))
+    | _, _ => (s, "bad-op")
   | ["baseprobe", a] =>
     -- `re.search(<published Base pattern>, a)` as the model computes it
     match decodeStr a with
